@@ -455,6 +455,9 @@ class LocalConcurrences:
                                   0, len(self.series2) + 1)
         else:
             wp = self._wp
+            # Cells used by earlier matches are marked by negating them (all affinities are >= 0)
+            used = np.isfinite(wp.data) & (wp.data < 0)
+            wp.data[used] = -wp.data[used]
             if self.window is None:
                 wp.mask = False
             else:
